@@ -760,10 +760,392 @@ def gen_annual(fn, what, lean, el):
             "(`values` = the column of the instance / filtered array) -/\n" + MFn(sp, node, {}).translate())
 
 
+# ================================================================================================ part 2
+# Whole-array bodies (`Model.NpGrid.A`), the shared per-data-set head (`Model.NpGrid.Head`), the loop nest of the annual
+# functions (`Model.NpGrid.AnnualLoop`), `_get_quantile_by_locality` / `_get_threshold_from_quantile` (dispatch reader).
+KW_ITEMS = "items"
+
+
+def _is_name(e, n=None):
+    return isinstance(e, ast.Name) and (n is None or e.id == n)
+
+
+def _str_list(e, what):
+    if not isinstance(e, (ast.List, ast.Tuple)) or not e.elts or not all(isinstance(x, ast.Constant) and isinstance(x.value, str) for x in e.elts):
+        raise Untranslatable(f"{what}: expected a list of string literals, found `{ast.unparse(e)[:50]}`")
+    return [x.value for x in e.elts]
+
+
+def _self_call(e, value, what, with_time):
+    """`self.<M>(VALUE[0], time=VALUE[1])` (with_time) or `self.<M>(VALUE, time=None)`; returns M"""
+    if not (isinstance(e, ast.Call) and isinstance(e.func, ast.Attribute) and _is_name(e.func.value, "self") and len(e.args) == 1
+            and len(e.keywords) == 1 and e.keywords[0].arg == "time"):
+        raise Untranslatable(f"{what}: expected `self.<method>(<data>, time=<time>)`, found `{ast.unparse(e)[:60]}`")
+    d, t = e.args[0], e.keywords[0].value
+    if with_time:
+        ok = (isinstance(d, ast.Subscript) and _is_name(d.value, value) and int_const(d.slice) == 0
+              and isinstance(t, ast.Subscript) and _is_name(t.value, value) and int_const(t.slice) == 1)
+    else:
+        ok = _is_name(d, value) and isinstance(t, ast.Constant) and t.value is None
+    if not ok:
+        raise Untranslatable(f"{what}: data / time arguments `{ast.unparse(e)[:70]}`")
+    return e.func.attr
+
+
+def read_head(fn, what):
+    """the shared per-data-set statements; returns (Head fields, name of the data local, body statements, result local)"""
+    if fn.args.kwarg is None:
+        raise Untranslatable(f"{what}: no **kwargs")
+    kw = fn.args.kwarg.arg
+    body = strip_doc(fn.body)
+    if len(body) != 5:
+        raise Untranslatable(f"{what}: expected `frames = []; for …; out = pd.concat(frames); out[col] = pd.to_numeric(out[col]); return out`")
+    init, loop, cat, num, ret = body
+    if not (isinstance(init, ast.Assign) and len(init.targets) == 1 and _is_name(init.targets[0]) and isinstance(init.value, ast.List) and not init.value.elts):
+        raise Untranslatable(f"{what}: first statement is not `<frames> = []`")
+    frames = init.targets[0].id
+    if not (isinstance(loop, ast.For) and not loop.orelse and isinstance(loop.target, ast.Tuple) and len(loop.target.elts) == 2
+            and all(_is_name(x) for x in loop.target.elts) and isinstance(loop.iter, ast.Call) and not loop.iter.args and not loop.iter.keywords
+            and isinstance(loop.iter.func, ast.Attribute) and loop.iter.func.attr == KW_ITEMS and _is_name(loop.iter.func.value, kw)):
+        raise Untranslatable(f"{what}: expected `for key, value in {kw}.items():`")
+    key, value = (x.id for x in loop.target.elts)
+    stmts = list(loop.body)
+    if len(stmts) < 2 or not isinstance(stmts[0], ast.If):
+        raise Untranslatable(f"{what}: the loop does not start with the `isinstance` dispatch")
+    br = stmts[0]
+    t = br.test
+    if not (isinstance(t, ast.Call) and _is_name(t.func, "isinstance") and len(t.args) == 2 and _is_name(t.args[0], value)
+            and isinstance(t.args[1], ast.Tuple) and [ast.unparse(x) for x in t.args[1].elts] == ["list", "tuple"]):
+        raise Untranslatable(f"{what}: expected `isinstance({value}, (list, tuple))`")
+    if len(br.body) != 1 or not isinstance(br.body[0], ast.Assign) or len(br.body[0].targets) != 1 or not _is_name(br.body[0].targets[0]):
+        raise Untranslatable(f"{what}: the list / tuple branch is not one assignment")
+    data = br.body[0].targets[0].id
+    src1 = _self_call(br.body[0].value, value, what, True)
+    if len(br.orelse) != 2 or not isinstance(br.orelse[0], ast.If) or br.orelse[0].orelse or len(br.orelse[0].body) != 1:
+        raise Untranslatable(f"{what}: the bare-array branch is not `if <scope test>: raise …; <data> = …`")
+    g = br.orelse[0]
+    if not (isinstance(g.test, ast.Compare) and len(g.test.ops) == 1 and isinstance(g.test.ops[0], ast.In)
+            and ast.unparse(g.test.left) == "self.threshold_scope"):
+        raise Untranslatable(f"{what}: guard `{ast.unparse(g.test)[:60]}`")
+    scopes = _str_list(g.test.comparators[0], what)
+    r = g.body[0]
+    if not (isinstance(r, ast.Raise) and r.exc is not None):
+        raise Untranslatable(f"{what}: the guard does not raise")
+    exc = r.exc.func if isinstance(r.exc, ast.Call) else r.exc
+    if not _is_name(exc):
+        raise Untranslatable(f"{what}: raise `{ast.unparse(r.exc)[:40]}`")
+    a2 = br.orelse[1]
+    if not (isinstance(a2, ast.Assign) and len(a2.targets) == 1 and _is_name(a2.targets[0], data)):
+        raise Untranslatable(f"{what}: the two branches assign different locals")
+    src2 = _self_call(a2.value, value, what, False)
+    if src1 != src2:
+        raise Untranslatable(f"{what}: the two branches call different methods ({src1}, {src2})")
+    # the frame
+    ap = stmts[-1]
+    if not (isinstance(ap, ast.Expr) and isinstance(ap.value, ast.Call) and isinstance(ap.value.func, ast.Attribute) and ap.value.func.attr == "append"
+            and _is_name(ap.value.func.value, frames) and len(ap.value.args) == 1 and not ap.value.keywords):
+        raise Untranslatable(f"{what}: the loop does not end with `{frames}.append(…)`")
+    df = ap.value.args[0]
+    if not (isinstance(df, ast.Call) and ast.unparse(df.func) == "pd.DataFrame" and not df.args and len(df.keywords) == 1 and df.keywords[0].arg == "data"
+            and isinstance(df.keywords[0].value, ast.Dict) and len(df.keywords[0].value.keys) == 3):
+        raise Untranslatable(f"{what}: expected `pd.DataFrame(data={{three columns}})`")
+    d = df.keywords[0].value
+    cols = []
+    for k in d.keys:
+        if not (isinstance(k, ast.Constant) and isinstance(k.value, str)):
+            raise Untranslatable(f"{what}: column key `{ast.unparse(k)}`")
+        cols.append(k.value)
+    if not _is_name(d.values[2]):
+        raise Untranslatable(f"{what}: the third column is not a local")
+    res = d.values[2].id
+
+    def rep(e, item):
+        return (isinstance(e, ast.BinOp) and isinstance(e.op, ast.Mult) and isinstance(e.left, ast.List) and len(e.left.elts) == 1
+                and ast.unparse(e.left.elts[0]) == item and ast.unparse(e.right) == f"{res}.size")
+
+    if not (rep(d.values[0], key) and rep(d.values[1], "self.name")):
+        raise Untranslatable(f"{what}: the first two columns are not `[{key}] * {res}.size`, `[self.name] * {res}.size`")
+    # concat / to_numeric / return
+    if not (isinstance(cat, ast.Assign) and len(cat.targets) == 1 and _is_name(cat.targets[0]) and ast.unparse(cat.value) == f"pd.concat({frames})"):
+        raise Untranslatable(f"{what}: expected `<out> = pd.concat({frames})`")
+    out = cat.targets[0].id
+    if not (isinstance(num, ast.Assign) and len(num.targets) == 1 and isinstance(num.targets[0], ast.Subscript) and _is_name(num.targets[0].value, out)
+            and isinstance(num.targets[0].slice, ast.Constant) and isinstance(num.targets[0].slice.value, str)
+            and ast.unparse(num.value) == f"pd.to_numeric({out}[{num.targets[0].slice.value!r}])"):
+        raise Untranslatable(f"{what}: expected `{out}[col] = pd.to_numeric({out}[col])`")
+    if not (isinstance(ret, ast.Return) and _is_name(ret.value, out)):
+        raise Untranslatable(f"{what}: does not return the concatenated frame")
+    for s in stmts[1:-1]:
+        for n in ast.walk(s):
+            if isinstance(n, ast.Name) and n.id in (value, key, frames):
+                raise Untranslatable(f"{what}: the body reads `{n.id}`")
+    head = dict(source=src1, timeScopes=scopes, raises=exc.id, columns=cols, numericColumn=num.targets[0].slice.value)
+    return head, data, stmts[1:-1], res
+
+
+def lean_head(name, h, doc):
+    sl = lambda l: "[" + ", ".join(lstr(s) for s in l) + "]"
+    return (f"/-- {doc} -/\ndef {name} : Model.NpGrid.Head :=\n  {{ source := {lstr(h['source'])}, timeScopes := {sl(h['timeScopes'])}, "
+            f"raises := {lstr(h['raises'])},\n    columns := {sl(h['columns'])}, numericColumn := {lstr(h['numericColumn'])} }}\n")
+
+
+def scipy_name(tree, name, module):
+    """the local name `name` is bound by `from <module> import <name>` at module level (and by nothing else there)"""
+    hits = [n for n in tree.body if isinstance(n, ast.ImportFrom) and any((a.asname or a.name) == name for a in n.names)]
+    if len(hits) != 1 or hits[0].module != module or not any(a.name == name and a.asname in (None, name) for a in hits[0].names):
+        raise Untranslatable(f"`{name}` is not `from {module} import {name}`")
+
+
+def a_expr(e, env, what):
+    def R(x):
+        return a_expr(x, env, what)
+
+    if isinstance(e, ast.Name):
+        if e.id in env and env[e.id] is not None:
+            return env[e.id]
+        raise Untranslatable(f"{what}: name `{e.id}`")
+    k = int_const(e)
+    if k is not None and k >= 0 and isinstance(e, ast.Constant):
+        return f"(.lit {k})"
+    if isinstance(e, ast.BinOp) and isinstance(e.op, (ast.Add, ast.Div)):
+        return f"(.{'add' if isinstance(e.op, ast.Add) else 'div'} {R(e.left)} {R(e.right)})"
+    if isinstance(e, ast.Subscript):
+        # a.shape[k]
+        if isinstance(e.value, ast.Attribute) and e.value.attr == "shape" and int_const(e.slice) is not None and int_const(e.slice) >= 0:
+            return f"(.shapeAt {R(e.value.value)} {int_const(e.slice)})"
+        # a[a != 0]
+        s = e.slice
+        if (isinstance(s, ast.Compare) and len(s.ops) == 1 and isinstance(s.ops[0], ast.NotEq) and int_const(s.comparators[0]) == 0
+                and R(s.left) == R(e.value)):
+            return f"(.selNeZero {R(e.value)})"
+        raise Untranslatable(f"{what}: subscript `{ast.unparse(e)[:60]}`")
+    if isinstance(e, ast.Call):
+        f = ast.unparse(e.func)
+        if f == "np.einsum" and len(e.args) == 2 and not e.keywords and isinstance(e.args[0], ast.Constant) and isinstance(e.args[0].value, str):
+            if e.args[0].value.replace(" ", "") == "ijk->i":
+                return f"(.einsumTime {R(e.args[1])})"
+            raise Untranslatable(f"{what}: einsum `{e.args[0].value}`")
+        if f == "np.prod" and len(e.args) == 1 and not e.keywords:
+            a = e.args[0]
+            if (isinstance(a, ast.Subscript) and isinstance(a.value, ast.Attribute) and a.value.attr == "shape" and isinstance(a.slice, ast.Slice)
+                    and a.slice.upper is None and a.slice.step is None and (a.slice.lower is None or (int_const(a.slice.lower) is not None and int_const(a.slice.lower) >= 0))):
+                lo = 0 if a.slice.lower is None else int_const(a.slice.lower)
+                return f"(.prodShapeFrom {R(a.value.value)} {lo})"
+            raise Untranslatable(f"{what}: np.prod of `{ast.unparse(a)[:40]}`")
+        if isinstance(e.func, ast.Attribute) and e.func.attr == "max" and not e.args and not e.keywords:
+            return f"(.amax {R(e.func.value)})"
+        if f == "np.arange" and not e.keywords and len(e.args) in (1, 2):
+            lo = "(.lit 0)" if len(e.args) == 1 else R(e.args[0])
+            return f"(.arange {lo} {R(e.args[-1])})"
+        if f == "measurements.sum":
+            pos = list(e.args)
+            kws = {k.arg: k.value for k in e.keywords}
+            names = ["input", "labels", "index"]
+            if len(pos) > 3 or any(k not in names[len(pos):] for k in kws) or len(pos) + len(kws) != 3:
+                raise Untranslatable(f"{what}: `{ast.unparse(e)[:70]}`")
+            full = pos + [kws[n] for n in names[len(pos):]]
+            return f"(.labelSum {R(full[0])} {R(full[1])} {R(full[2])})"
+    raise Untranslatable(f"{what}: expression `{ast.unparse(e)[:60]}`")
+
+
+def a_body(stmts, data, res, what):
+    env = {data: ".inst"}
+    for st in stmts:
+        if not isinstance(st, ast.Assign) or len(st.targets) != 1:
+            raise Untranslatable(f"{what}: statement `{ast.unparse(st)[:60]}`")
+        tg, v = st.targets[0], st.value
+        if isinstance(tg, ast.Tuple):
+            # `<labels>, _ = measurements.label(<a>)`
+            if not (len(tg.elts) == 2 and all(_is_name(x) for x in tg.elts) and isinstance(v, ast.Call) and ast.unparse(v.func) == "measurements.label"
+                    and len(v.args) == 1 and not v.keywords):
+                raise Untranslatable(f"{what}: statement `{ast.unparse(st)[:60]}`")
+            env[tg.elts[1].id] = None  # the number of features: not read by the recognised shapes
+            env[tg.elts[0].id] = f"(.label0 {a_expr(v.args[0], env, what)})"
+        elif _is_name(tg):
+            env[tg.id] = a_expr(v, env, what)
+        else:
+            raise Untranslatable(f"{what}: statement `{ast.unparse(st)[:60]}`")
+    if env.get(res) is None:
+        raise Untranslatable(f"{what}: the reported local `{res}` is not computed by the body")
+    return env[res]
+
+
+def gen_grid_method(tree, cls, func, lean):
+    fn = find_method(cls, func)
+    if pos_params(fn, True):
+        raise Untranslatable(f"{func}: positional parameters")
+    head, data, stmts, res = read_head(fn, func)
+    if any("measurements" in ast.unparse(s) for s in stmts):
+        scipy_name(tree, "measurements", "scipy.ndimage")
+    body = a_body(stmts, data, res, func)
+    return (lean_head(f"{lean}_head", head, f"generated from `{SRC}`: `ThresholdMetric.{func}`, the statements around the per-data-set body")
+            + f"\n/-- generated from `{SRC}`: `ThresholdMetric.{func}`, the value of the reported column as an expression of the "
+              f"instances array of one data set -/\ndef {lean}_body : Model.NpGrid.A :=\n  {body}\n")
+
+
+# -- the loop nest of the annual functions
+def gen_annual_loop(fn, what, lean):
+    body = strip_doc(fn.body)
+    params = pos_params(fn, True)
+    loops = [k for k, s in enumerate(body) if isinstance(s, ast.For)]
+    if len(loops) != 1 or loops[0] != len(body) - 2 or not isinstance(body[-1], ast.Return) or not params:
+        raise Untranslatable(f"{what}: expected `…; for …: for …: …; return <array>`")
+    outer = body[loops[0]]
+    if len(outer.body) != 1 or not isinstance(outer.body[0], ast.For) or outer.orelse or outer.body[0].orelse or len(outer.body[0].body) != 1:
+        raise Untranslatable(f"{what}: loop nest")
+    inner = outer.body[0]
+    st = inner.body[0]
+    if not (isinstance(st, ast.Assign) and isinstance(st.value, ast.ListComp) and len(st.targets) == 1 and isinstance(st.targets[0], ast.Subscript)
+            and _is_name(st.targets[0].value) and isinstance(st.targets[0].slice, ast.Tuple) and len(st.targets[0].slice.elts) == 3):
+        raise Untranslatable(f"{what}: store")
+    out = st.targets[0].value.id
+    sl = st.targets[0].slice.elts
+    if not (isinstance(sl[0], ast.Slice) and sl[0].lower is None and sl[0].upper is None and sl[0].step is None):
+        raise Untranslatable(f"{what}: the store is not on a full slice of axis 0")
+    comp = st.value
+    if len(comp.generators) != 1 or not _is_name(comp.generators[0].iter):
+        raise Untranslatable(f"{what}: comprehension")
+    years = comp.generators[0].iter.id
+    j, k = outer.target, inner.target
+    if not (_is_name(j) and _is_name(k)):
+        raise Untranslatable(f"{what}: loop targets")
+    vals = {n.value.id for n in ast.walk(comp.elt) if isinstance(n, ast.Subscript) and isinstance(n.slice, ast.Tuple) and _is_name(n.value)}
+    if len(vals) != 1:
+        raise Untranslatable(f"{what}: the comprehension reads {sorted(vals)}")
+    values = vals.pop()
+
+    def dim(e):
+        if (isinstance(e, ast.Subscript) and isinstance(e.value, ast.Attribute) and e.value.attr == "shape" and _is_name(e.value.value)
+                and int_const(e.slice) is not None and int_const(e.slice) >= 0):
+            n, kk = e.value.value.id, int_const(e.slice)
+            if n == years and kk == 0:
+                return ".years"
+            if n == params[0]:
+                return f"(.data {kk})"
+            if n == values:
+                return f"(.values {kk})"
+        raise Untranslatable(f"{what}: dimension `{ast.unparse(e)[:40]}`")
+
+    def rng(loop):
+        it = loop.iter
+        if not (isinstance(it, ast.Call) and _is_name(it.func, "range") and len(it.args) == 1 and not it.keywords):
+            raise Untranslatable(f"{what}: loop over `{ast.unparse(it)[:40]}`")
+        return dim(it.args[0])
+
+    allocs = [s for s in body[:loops[0]] if isinstance(s, ast.Assign) and len(s.targets) == 1 and _is_name(s.targets[0], out)]
+    if len(allocs) != 1 or body[loops[0] - 1] is not allocs[0]:
+        raise Untranslatable(f"{what}: `{out}` is not allocated by the statement before the loops")
+    al = allocs[0].value
+    if not (isinstance(al, ast.Call) and ast.unparse(al.func) == "np.zeros" and len(al.args) == 1 and not al.keywords and isinstance(al.args[0], ast.Tuple)):
+        raise Untranslatable(f"{what}: allocation `{ast.unparse(al)[:50]}`")
+    dims = [dim(x) for x in al.args[0].elts]
+    b = lambda c: "true" if c else "false"
+    return (f"/-- generated from `{SRC}`: `{what}`, the allocation, the loop nest and the store around the per-year comprehension -/\n"
+            f"def {lean}_loop : Model.NpGrid.AnnualLoop :=\n  {{ alloc := [{', '.join(dims)}], outer := {rng(outer)}, inner := {rng(inner)},\n"
+            f"    storeOuter := {b(ast.unparse(sl[1]) == j.id)}, storeInner := {b(ast.unparse(sl[2]) == k.id)}, "
+            f"returnsAlloc := {b(_is_name(body[-1].value, out))} }}\n")
+
+
+# -- `_get_quantile_by_locality`, `_get_threshold_from_quantile`
+class CanonComp(ast.NodeTransformer):
+    """the variable of a one-generator dict comprehension is renamed `cv_` (its name is not part of the tie)"""
+
+    def visit_DictComp(self, n):
+        n = self.generic_visit(n)
+        if len(n.generators) == 1 and isinstance(n.generators[0].target, ast.Name) and not n.generators[0].ifs:
+            return subst_names(n, {n.generators[0].target.id: "cv_"})
+        return n
+
+
+def gen_quantile_by_locality(cls):
+    fn = find_method(cls, "_get_quantile_by_locality")
+    p = pos_params(fn, False)
+    if len(p) != 5:
+        raise Untranslatable("_get_quantile_by_locality: expected (x, q, time, threshold_scope, threshold_locality)")
+    x, q, time, scope, loc = p
+    for n in ast.walk(fn):
+        if isinstance(n, ast.Name) and n.id == "cv_":
+            raise Untranslatable("_get_quantile_by_locality: reserved name")
+    fn = CanonComp().visit(copy.deepcopy(fn))
+    env = {x: (lname(x), "ξ"), q: (lname(q), "κ"), time: (lname(time), "γ"), scope: (lname(scope), STR), loc: (lname(loc), STR)}
+    tps = [
+        Template("np.quantile(_1, _2)", "quantile_flat", ["ξ", "κ"], "σ"),
+        Template("np.quantile(_1, _2, axis=0)", "quantile_axis0", ["ξ", "κ"], "σ"),
+        Template("{cv_: np.quantile(_1[np.where(_2 == cv_)], _3) for cv_ in np.unique(_2)}", "group_quantile_flat", ["ξ", "γ", "κ"], "σ"),
+        Template("{cv_: [np.quantile(_1[np.where(_2 == cv_)], _3, axis=0)] for cv_ in np.unique(_2)}", "group_quantile_axis0", ["ξ", "γ", "κ"], "σ"),
+    ]
+    d = Disp("_get_quantile_by_locality", env, tps, "σ")
+    return emit_def("quantile_by_locality", "{ξ κ γ σ : Type}",
+                    [("quantile_flat quantile_axis0", "ξ → κ → σ"), ("group_quantile_flat group_quantile_axis0", "ξ → γ → κ → σ"),
+                     (lname(x), "ξ"), (lname(q), "κ"), (lname(time), "γ"), (lname(scope), STR), (lname(loc), STR)], "σ",
+                    d.block(strip_doc(fn.body), env, 2),
+                    f"generated from `{SRC}`: `ThresholdMetric._get_quantile_by_locality` (the four `np.quantile` pipelines are parameters: "
+                    "whole array, `axis=0`, and the dict comprehensions over `np.unique(time)` of either on `x[np.where(time == t)]`)")
+
+
+def gen_threshold_from_quantile(cls):
+    fn = find_method(cls, "_get_threshold_from_quantile")
+    p = pos_params(fn, False)
+    if len(p) != 5:
+        raise Untranslatable("_get_threshold_from_quantile: expected (x, q, time, threshold_scope, threshold_locality)")
+    x, q, time, scope, loc = p
+    env = {x: (lname(x), "ξ"), q: (lname(q), "κ"), time: (lname(time), "Option τ"), scope: (lname(scope), STR), loc: (lname(loc), STR)}
+    tps = [
+        Template("ThresholdMetric._get_time_group_by_scope(_1, _2)", "time_group_by_scope day_of_year month season", ["Option τ", STR], "Option γ", bind=True),
+        Template("ThresholdMetric._get_quantile_by_locality(_1, _2, _3, _4, _5)", "quantile_by_locality quantile_flat quantile_axis0 group_quantile_flat group_quantile_axis0",
+                 ["ξ", "κ", "Option γ", STR, STR], "σ", bind=True),
+    ]
+
+    def warn_only(st):
+        # `ThresholdMetric._check_completeness_of_time_categories_and_warn(<thresholds>, <scope>)`: warnings for absent keys; its only
+        # `raise` (an unknown scope) is behind `_get_time_group_by_scope`, which raises first
+        return (isinstance(st, ast.Expr) and isinstance(st.value, ast.Call) and not st.value.keywords and len(st.value.args) == 2
+                and ast.unparse(st.value.func) == "ThresholdMetric._check_completeness_of_time_categories_and_warn"
+                and _is_name(st.value.args[1], scope) and _is_name(st.value.args[0]))
+
+    d = Disp("_get_threshold_from_quantile", env, tps, "σ", layout=warn_only)
+    return emit_def("threshold_from_quantile", "{τ γ ξ κ σ : Type}",
+                    [("day_of_year month season", "τ → γ"), ("quantile_flat quantile_axis0", "ξ → κ → σ"),
+                     ("group_quantile_flat group_quantile_axis0", "ξ → Option γ → κ → σ"),
+                     (lname(x), "ξ"), (lname(q), "κ"), (lname(time), "Option τ"), (lname(scope), STR), (lname(loc), STR)], "σ",
+                    d.block(strip_doc(fn.body), env, 2),
+                    f"generated from `{SRC}`: `ThresholdMetric._get_threshold_from_quantile`: the time groups of the scope, then the quantiles "
+                    "by locality (the completeness check only warns)")
+
+
+def gen_check_types_locality(cls):
+    fn = find_method(cls, "_check_types_locality")
+    p = pos_params(fn, False)
+    if len(p) != 2:
+        raise Untranslatable("_check_types_locality: expected (threshold_value, threshold_locality)")
+    v, loc = p
+    env = {v: (lname(v), "σ"), loc: (lname(loc), STR)}
+    tps = [Template("isinstance(_1, (float, int))", "is_number", ["σ"], BOOL),
+           Template("isinstance(_1, (np.ndarray, list))", "is_array_or_list", ["σ"], BOOL)]
+    d = Disp("_check_types_locality", env, tps, "Unit", implicit_return="()")
+    return emit_def("check_types_locality", "{σ : Type}", [("is_number is_array_or_list", "σ → Bool"), (lname(v), "σ"), (lname(loc), STR)], "Unit",
+                    d.block(strip_doc(fn.body), env, 2),
+                    f"generated from `{SRC}`: `ThresholdMetric._check_types_locality` (the constructor's type check of one threshold)")
+
+
+def generate_part2(tree, cls, section):
+    am = find_class(tree, "AccumulativeThresholdMetric")
+    section("calculate_spatiotemporal_clusters", lambda: gen_grid_method(tree, cls, "calculate_spatiotemporal_clusters", "clusters"))
+    section("calculate_spatial_extent", lambda: gen_grid_method(tree, cls, "calculate_spatial_extent", "spatial_extent"))
+    section("_get_quantile_by_locality", lambda: gen_quantile_by_locality(cls))
+    section("_get_threshold_from_quantile", lambda: gen_threshold_from_quantile(cls))
+    section("_check_types_locality", lambda: gen_check_types_locality(cls))
+    section("calculate_number_annual_days_beyond_threshold (loop nest)", lambda: gen_annual_loop(
+        find_method(cls, "calculate_number_annual_days_beyond_threshold"), "ThresholdMetric.calculate_number_annual_days_beyond_threshold", "annual_counts"))
+    section("calculate_annual_value_beyond_threshold (loop nest)", lambda: gen_annual_loop(
+        find_method(am, "calculate_annual_value_beyond_threshold"), "AccumulativeThresholdMetric.calculate_annual_value_beyond_threshold", "annual_values"))
+
+
+
 # ---------------------------------------------------------------------------------------------- driver
 def generate(repo):
     errors = []
-    out = ["", "import IbicusModel.Model.Py", "import IbicusModel.Model.NpExpr", "", "namespace Gen.Metrics", ""]
+    out = ["", "import IbicusModel.Model.Py", "import IbicusModel.Model.NpExpr", "import IbicusModel.Model.NpGrid", "", "namespace Gen.Metrics", ""]
     tree = ast.parse(open(os.path.join(repo, SRC)).read())
     cls = find_class(tree, "ThresholdMetric")
 
@@ -784,6 +1166,7 @@ def generate(repo):
     text, errs = gen_formulas(tree)
     out.append(text)
     errors.extend(errs)
+    generate_part2(tree, cls, section)
     out.append("end Gen.Metrics")
     return "\n".join(out) + "\n", errors
 
